@@ -52,7 +52,10 @@ def build_session(rng, tmp, kind, metric, thorough, lattice=None):
     Xv = X[:: 2].copy() + 0.01
     Yv = Y[:: 2].copy()
     Yv[0] = Y.max()
-    for a, nm in ((X, "X"), (Y, "Y"), (Q, "Q"), (Xu, "Xu"), (Xv, "Xv"), (Yv, "Yv")):
+    Y2 = (Y + 1) % (int(Y.max()) + 1)          # the same samples under rotated labels, for a second object of the same class
+    Yv2 = (Yv + 1) % (int(Y.max()) + 1)
+    Yv2[0] = Y2.max()
+    for a, nm in ((X, "X"), (Y, "Y"), (Q, "Q"), (Xu, "Xu"), (Xv, "Xv"), (Yv, "Yv"), (Y2, "Y2"), (Yv2, "Yv2")):
         s.add(a, nm)
     s.seal()
     cfg = {"distance": metric}
@@ -65,6 +68,11 @@ def build_session(rng, tmp, kind, metric, thorough, lattice=None):
     ep = 1
     s.fit(o, ep, X, Y, extra)
     s.observe(o, ep, "predstate")                 # everything a prediction reads (no relevance marks), as fit left it
+    # a second object of the same class lives next to it, fitted on the same samples under rotated labels and asked about the same
+    # queries in between: what one object was asked never shows in the other's answers (group 2 is judged on its own)
+    o2 = s.new_model(kind, 2, **cfg)
+    extra2 = {"sup": (), "semi": (Xu,), "knn": (Xv, Yv2), "unsup": ()}[kind]
+    s.fit(o2, 1, X, Y2, extra2)
     # queries + the training samples themselves + far outliers (a sample far outside the training data exercises the ends of every
     # range a model keeps - whatever predicting it does, the others' labels may not move)
     far = X.mean(0) + (np.array([[60.0, 45.0], [-35.0, 80.0]]) if X.shape[1] == 2 else 50.0)
@@ -87,8 +95,12 @@ def build_session(rng, tmp, kind, metric, thorough, lattice=None):
             idx = [rng.randrange(m) for _ in range(rng.randrange(2, m))]   # duplicates, any order
         else:
             idx = rng.sample(range(m), rng.randrange(2, m))
+        if rnd % 3 == 1:
+            s.predict(o2, 1, allq[idx].copy())    # the other object first, on the very same samples
         s.predict(o, ep, allq[idx].copy())
         s.observe(o, ep, "predstate")             # ... and as every predict call leaves it: within an epoch it may not move
+        if rnd % 3 == 2:
+            s.predict(o2, 1, allq[idx[::-1]].copy())
         if kind == "unsup" and rng.random() < 0.15:
             s.call("propagate_labels", s.objs[o]["m"].propagate_labels)
             ep += 1                               # labels change by contract: new epoch
@@ -166,7 +178,7 @@ def run(tier, seed):
         if clause[0] not in CLAUSES:
             continue
         rep.violation("predict", clause[0], meta["kind"], {"event_index": l, "event": {k: v for k, v in e.items() if k != "arr"}, "session": meta, "seed": rep.seed, "tier": tier})
-    rep.cov["rule"] = "per fitted model: the same pool of samples (incl. copies of training samples and the training samples themselves) predicted alone, in full/reversed/sub-sampled/duplicated batches and after unrelated predict calls; propagate_labels and refits start a new epoch; the state predictions read (everything but relevance marks) is observed after fit and after every predict call and may not move within an epoch; far outliers among the queries; four model kinds, 11 metrics"
+    rep.cov["rule"] = "per fitted model: the same pool of samples (incl. copies of training samples and the training samples themselves) predicted alone, in full/reversed/sub-sampled/duplicated batches and after unrelated predict calls; propagate_labels and refits start a new epoch; the state predictions read (everything but relevance marks) is observed after fit and after every predict call and may not move within an epoch; far outliers among the queries; a second object of the same class (same samples, rotated labels) is asked about the same samples in between; four model kinds, 11 metrics"
     rep.assumptions = ["TLC", "sample identity = content id of its feature row"]
     return rep.finish()
 
